@@ -403,7 +403,11 @@ impl Task {
         // This counts the schedulers instead of looking at the `SCHEDULING` bit: the
         // bit is cleared by whichever scheduler finishes first, even if another one
         // is still between loading the `Shared` pointer and its last use of it.
+        #[cfg(compio_verif)]
+        compio_log::verif::point("exec.task.wait_scheduling", self.0.as_ptr() as u64, 0);
         while header.schedulers.load(Acquire) != 0 {
+            #[cfg(compio_verif)]
+            compio_log::verif::point("exec.task.wait_spin", self.0.as_ptr() as u64, 0);
             crate::hint::spin_loop();
         }
     }
